@@ -252,13 +252,36 @@ func segmentsOf(it *Item) (segs []segment, headerLen int) {
 	return
 }
 
+// markerCodes lists the marker codes of a family (with minimal well-formed payloads where a
+// parser needs them to go on).
+func markerCodes(family string) [][]byte {
+	switch family {
+	case "j2k":
+		out := [][]byte{{0xFF, 0x91, 0, 4, 0, 0}, {0xFF, 0x91}, {0xFF, 0x92}, {0xFF, 0x93}, {0xFF, 0x90, 0, 10, 0, 0, 0, 0, 0, 0, 0, 1}, {0xFF, 0xD9}, {0xFF, 0x4F}}
+		for _, m := range []byte{0x51, 0x52, 0x53, 0x55, 0x57, 0x58, 0x5C, 0x5D, 0x5E, 0x5F, 0x60, 0x61, 0x63, 0x64, 0x50, 0x74, 0x75, 0x76, 0x77, 0x78} {
+			out = append(out, []byte{0xFF, m}, []byte{0xFF, m, 0, 2}, []byte{0xFF, m, 0, 4, 0, 0})
+		}
+		return out
+	case "jpeg", "jpegls":
+		out := [][]byte{{0xFF, 0xD8}, {0xFF, 0xD9}, {0xFF, 0x01}}
+		for m := 0xD0; m <= 0xD7; m++ {
+			out = append(out, []byte{0xFF, byte(m)})
+		}
+		for _, m := range []byte{0xC0, 0xC1, 0xC2, 0xC3, 0xC4, 0xC8, 0xCC, 0xDA, 0xDB, 0xDC, 0xDD, 0xDE, 0xDF, 0xE0, 0xEE, 0xF7, 0xF8, 0xFE} {
+			out = append(out, []byte{0xFF, m}, []byte{0xFF, m, 0, 2}, []byte{0xFF, m, 0, 4, 0, 1})
+		}
+		return out
+	}
+	return [][]byte{{0xFF, 0xD9}}
+}
+
 var hostile = []byte{0, 1, 2, 3, 4, 7, 8, 15, 16, 17, 31, 32, 63, 64, 0x7F, 0x80, 0x81, 0xC0, 0xD9, 0xFE, 0xFF}
 
 func mutate(t *rapid.T, it *Item, data []byte) ([]byte, string) {
 	segs, hdr := segmentsOf(it)
 	kinds := []string{"trunc", "setbyte", "setbyte", "field", "field", "seglen", "seglen", "segop", "splice", "tail", "insert", "word"}
 	if it.Family == "j2k" && len(segs) > 0 {
-		kinds = append(kinds, "tilegrid", "tilegrid")
+		kinds = append(kinds, "tilegrid", "tilegrid", "tilepart", "tilepart")
 	}
 	if len(segs) == 0 {
 		kinds = []string{"trunc", "setbyte", "setbyte", "tail", "insert", "word", "splice"}
@@ -376,6 +399,55 @@ func mutate(t *rapid.T, it *Item, data []byte) ([]byte, string) {
 			}
 		}
 		return out, desc
+	case "tilepart":
+		// Cooperating edits of one tile-part: its length field (absent / too short / past the end,
+		// which sends a parser to its marker-scanning fallback) together with marker codes placed
+		// inside its body (SOP, EPH, SOT, SOD, EOC, main-header markers).
+		desc := "tilepart:"
+		sot := -1
+		for i := 0; i+12 <= len(out); i++ {
+			if out[i] == 0xFF && out[i+1] == 0x90 && out[i+2] == 0 && out[i+3] == 10 {
+				sot = i
+				if rapid.Bool().Draw(t, "firstsot") {
+					break
+				}
+			}
+		}
+		if sot < 0 {
+			return out, "tilepart:none"
+		}
+		sod := -1
+		for i := sot + 12; i+1 < len(out); i++ {
+			if out[i] == 0xFF && out[i+1] == 0x93 {
+				sod = i
+				break
+			}
+		}
+		rest := len(out) - sot
+		v := rapid.SampledFrom([]int{0, 0, 0, 1, 11, 12, 13, 14, rest - 1, rest, rest + 1, rest + 2, 1 << 16, 1<<31 - 1, -1}).Draw(t, "psot")
+		if v >= 0 || rapid.Bool().Draw(t, "keep-psot") {
+			u := uint32(v)
+			out[sot+6], out[sot+7], out[sot+8], out[sot+9] = byte(u>>24), byte(u>>16), byte(u>>8), byte(u)
+			desc += fmt.Sprintf("Psot=%d", u)
+		}
+		if sod >= 0 {
+			n := rapid.IntRange(0, 2).Draw(t, "nmark")
+			for k := 0; k < n; k++ {
+				body := len(out) - (sod + 2)
+				at := sod + 2
+				if body > 0 {
+					at += rapid.SampledFrom([]int{0, 0, 1, body / 2, max(0, body-2), body}).Draw(t, "at")
+				}
+				m := rapid.SampledFrom(markerCodes("j2k")).Draw(t, "marker")
+				if rapid.Bool().Draw(t, "overwrite") && at+len(m) <= len(out) {
+					copy(out[at:], m)
+				} else {
+					out = append(append(append([]byte(nil), out[:at]...), m...), out[at:]...)
+				}
+				desc += fmt.Sprintf(",%x@body+%d", m[:2], at-sod-2)
+			}
+		}
+		return out, desc
 	case "splice":
 		other := pool[rapid.IntRange(0, len(pool)-1).Draw(t, "other")]
 		p := rapid.IntRange(0, len(out)).Draw(t, "cut")
@@ -390,7 +462,7 @@ func mutate(t *rapid.T, it *Item, data []byte) ([]byte, string) {
 		return append(append([]byte(nil), out[:keep]...), tail...), fmt.Sprintf("tail:%d+%d", keep, len(tail))
 	case "insert":
 		p := pos("at")
-		ins := rapid.SampledFrom([][]byte{{0xFF, 0xD9}, {0xFF, 0xDA}, {0xFF, 0x00}, {0xFF, 0xFF}, {0xFF, 0x90}, {0xFF, 0x93}, {0xFF, 0xD0}, {0xFF, 0xC4, 0, 3, 0}, {0xFF, 0x51}, {0}, {0xFF}}).Draw(t, "ins")
+		ins := rapid.SampledFrom(append([][]byte{{0xFF, 0xD9}, {0xFF, 0xDA}, {0xFF, 0x00}, {0xFF, 0xFF}, {0xFF, 0x90}, {0xFF, 0x93}, {0xFF, 0xD0}, {0xFF, 0xC4, 0, 3, 0}, {0xFF, 0x51}, {0}, {0xFF}}, markerCodes(it.Family)...)).Draw(t, "ins")
 		r := append(append([]byte(nil), out[:p]...), ins...)
 		return append(r, out[p:]...), fmt.Sprintf("insert:%d:%x", p, ins)
 	default: // word: overwrite a 16/32-bit big-endian field
@@ -415,10 +487,10 @@ func genInfo(t *rapid.T, it *Item, entry string) *dec.Info {
 	if entry == "codec:RLE" || rapid.IntRange(0, 4).Draw(t, "mutinfo") == 0 {
 		// hostile frame descriptions; Rows*Cols*planes stays under 2^24 so that allocation size remains C09's question
 		if rapid.Bool().Draw(t, "iw") {
-			inf.W = rapid.SampledFrom([]int{0, 1, 2, inf.W, inf.W + 1, 255, 4096}).Draw(t, "w")
+			inf.W = rapid.SampledFrom([]int{0, 1, 2, inf.W, inf.W + 1, inf.W - 1, inf.W - 1, 255, 4096}).Draw(t, "w")
 		}
 		if rapid.Bool().Draw(t, "ih") {
-			inf.H = rapid.SampledFrom([]int{0, 1, 2, inf.H, inf.H + 1, 255, 4096}).Draw(t, "h")
+			inf.H = rapid.SampledFrom([]int{0, 1, 2, inf.H, inf.H + 1, inf.H - 1, inf.H - 1, 255, 4096}).Draw(t, "h")
 		}
 		if rapid.Bool().Draw(t, "iba") {
 			inf.BA = rapid.SampledFrom([]int{0, 1, 7, 8, 9, 16, 32, 64, 65535}).Draw(t, "ba")
@@ -588,4 +660,104 @@ func TestHeaderBytes(t *testing.T) {
 		}
 	}
 	core.ExhaustiveDone("single-byte corruption of every header byte (first 300) of every pool stream with the value set of the tier", int64(n))
+}
+
+// TestRLEGrammar: RLE frames written from the PS3.5 Annex G grammar instead of mutated from an
+// encoder's output: a 64-byte header (segment count and offsets: right, too few, too many,
+// shuffled, overlapping, past the end) and per byte plane a token sequence of literal runs,
+// replicate runs and no-ops whose decoded length is the plane size plus a drawn difference
+// (-2 .. +2, far too long, empty), so that the last run of a segment ends exactly at, one short
+// of, or one past the end of the output in every layout (8/16/32 bits allocated, 1/3 samples,
+// colour-by-pixel / colour-by-plane, odd sizes).
+func TestRLEGrammar(t *testing.T) {
+	shard, shards := core.EnvInt("VERIF_SHARD", 0), max(1, core.EnvInt("VERIF_SHARDS", 1))
+	seed := core.EnvInt("VERIF_SEED", 1)
+	n := 6000
+	if core.Thorough() {
+		n = 200000
+	}
+	g := rapid.Custom(func(t *rapid.T) *Case {
+		inf := dec.Info{W: rapid.IntRange(1, 7).Draw(t, "w"), H: rapid.IntRange(1, 5).Draw(t, "h"), BA: rapid.SampledFrom([]int{8, 8, 16, 16, 32}).Draw(t, "ba"),
+			SPP: rapid.SampledFrom([]int{1, 3, 3}).Draw(t, "spp"), Planar: rapid.IntRange(0, 1).Draw(t, "planar")}
+		inf.BS = inf.BA
+		planes := inf.BA / 8 * inf.SPP
+		px := inf.W * inf.H
+		var segs [][]byte
+		desc := ""
+		for p := 0; p < planes; p++ {
+			want := px + rapid.SampledFrom([]int{0, 0, 0, 0, 1, 1, -1, 2, -2, 5, 200, -px}).Draw(t, "delta")
+			var seg []byte
+			got := 0
+			for got < want {
+				left := want - got
+				switch rapid.IntRange(0, 5).Draw(t, "tok") {
+				case 0, 1, 2: // literal run of 1..128 bytes
+					k := rapid.IntRange(1, min(128, left)).Draw(t, "lit")
+					seg = append(seg, byte(k-1))
+					for i := 0; i < k; i++ {
+						seg = append(seg, byte(got+i*7+p))
+					}
+					got += k
+				case 3, 4: // replicate run of 2..128 bytes
+					k := rapid.IntRange(2, max(2, min(128, left))).Draw(t, "rep")
+					seg = append(seg, byte(257-k), byte(got+p))
+					got += k
+				default: // no-op
+					seg = append(seg, 0x80)
+				}
+			}
+			switch rapid.IntRange(0, 7).Draw(t, "end") {
+			case 0: // a run header without its data at the very end
+				seg = append(seg, rapid.SampledFrom([]byte{0, 5, 127, 129, 255}).Draw(t, "dangling"))
+			case 1:
+				seg = append(seg, 0x80)
+			}
+			if len(seg)%2 == 1 {
+				seg = append(seg, 0)
+			}
+			segs = append(segs, seg)
+			desc += fmt.Sprintf("%+d,", want-px)
+		}
+		hdr := make([]byte, 64)
+		count := len(segs)
+		switch rapid.IntRange(0, 9).Draw(t, "count") {
+		case 0:
+			count = rapid.SampledFrom([]int{0, 1, len(segs) - 1, len(segs) + 1, 15, 16, 255, 1 << 24}).Draw(t, "countv")
+		}
+		put := func(off int, v uint32) { hdr[off], hdr[off+1], hdr[off+2], hdr[off+3] = byte(v), byte(v>>8), byte(v>>16), byte(v>>24) }
+		put(0, uint32(count))
+		off := 64
+		var body []byte
+		for i, sg := range segs {
+			if i < 15 {
+				put(4+4*i, uint32(off))
+			}
+			body = append(body, sg...)
+			off += len(sg)
+		}
+		switch rapid.IntRange(0, 9).Draw(t, "offsets") {
+		case 0: // one offset is wrong
+			i := rapid.IntRange(0, min(14, len(segs))).Draw(t, "oi")
+			put(4+4*i, rapid.SampledFrom([]uint32{0, 1, 63, 64, 65, uint32(off - 1), uint32(off), uint32(off + 1), 1 << 31, 1<<32 - 1}).Draw(t, "ov"))
+			desc += "offset"
+		case 1: // first two swapped
+			if len(segs) >= 2 {
+				a, b := append([]byte(nil), hdr[4:8]...), append([]byte(nil), hdr[8:12]...)
+				copy(hdr[4:8], b)
+				copy(hdr[8:12], a)
+				desc += "swapped"
+			}
+		}
+		in := append(hdr, body...)
+		if rapid.IntRange(0, 7).Draw(t, "cut") == 0 {
+			in = in[:rapid.IntRange(0, len(in)).Draw(t, "cutat")]
+		}
+		return &Case{Entry: "codec:RLE", Parent: "rle-grammar", Muts: []string{"grammar:" + desc}, Input: in, Info: &inf}
+	})
+	for i := 0; i < n; i++ {
+		if i%shards != shard {
+			continue
+		}
+		core.Eval(t, ID, "quota", g.Example(seed*1000003+i), Check)
+	}
 }
